@@ -21,8 +21,9 @@ use crate::{
     },
 };
 
-pub const PHASES: [&str; 9] = [
+pub const PHASES: [&str; 10] = [
     "before-connect",
+    "connecting",
     "connected-idle",
     "mid-head",
     "mid-upload",
@@ -38,6 +39,10 @@ pub struct Case {
     pub phase: String,
     /// ReturnListenSockets first (hand-over), then the SoftStop
     pub hand_over: bool,
+    /// the worker is at max_connections when the stop arrives: an idle connection holds the second of
+    /// two places, a third connection was turned away and a fourth waits in the listen queue
+    #[serde(default)]
+    pub crowd: bool,
 }
 
 const UP: usize = 30_000;
@@ -79,6 +84,11 @@ pub fn run_case(case: &Case, prefix: Vec<u32>, profile: ChoiceProfile) -> Run {
         "before-connect" => {
             sync = 0;
             script.extend([pause.clone(), Step::Connect { to: front, from: None }, Step::Send { bytes: [head.clone(), upload.clone()].concat(), splits: vec![] }, Step::ExpectH1 { count: 1, responses: true }, Step::Done]);
+        }
+        // the connection attempt and the stop reach the worker in the same batch of events
+        "connecting" => {
+            sync = 0;
+            script.extend([Step::Connect { to: front, from: None }, pause.clone(), Step::Send { bytes: [head.clone(), upload.clone()].concat(), splits: vec![] }, Step::ExpectH1 { count: 1, responses: true }, Step::Done]);
         }
         "connected-idle" => {
             script.push(Step::Connect { to: front, from: None });
@@ -142,9 +152,15 @@ pub fn run_case(case: &Case, prefix: Vec<u32>, profile: ChoiceProfile) -> Run {
     // the worker must have seen what the client did before the stop arrives: a request whose
     // bytes still sit unread in the kernel when the worker decides to stop is indistinguishable
     // from an idle connection, that race belongs to HTTP/1.1 itself
-    let mut main = vec![MainStep::AwaitPeerAt { peer: 1, pc: sync }, MainStep::Wait { ms: 20 }];
+    let mut main = vec![MainStep::AwaitPeerAt { peer: 1, pc: sync }, MainStep::Wait { ms: if case.crowd { 60 } else { 20 } }];
     if sync == 0 {
         main.clear();
+    }
+    let mut peers = vec![backend, client, late];
+    if case.crowd {
+        for (i, name) in ["holder", "turned-away", "queued"].into_iter().enumerate() {
+            peers.push(Peer::client(name, vec![Step::Wait { ms: 10 + 10 * i as u64 }, Step::Connect { to: front, from: None }, Step::ExpectEof, Step::Done]));
+        }
     }
     if case.hand_over {
         main.push(MainStep::Send(worker::request("RETURN", RequestType::ReturnListenSockets(ReturnListenSockets {}))));
@@ -154,13 +170,26 @@ pub fn run_case(case: &Case, prefix: Vec<u32>, profile: ChoiceProfile) -> Run {
     main.push(MainStep::AwaitFinal("STOP".into()));
     main.push(MainStep::AwaitPeersFor { ms: 60_000 });
     main.push(MainStep::Wait { ms: 2000 });
-    let ws = WorkerSetup { config: worker::server_config(|_| {}), initial: scen::http_state(&setup) };
-    let (mut exec, create_err) = worker::run_worker(ws, vec![backend, client, late], main, profile, prefix, 200);
+    let crowd = case.crowd;
+    let ws = WorkerSetup {
+        config: worker::server_config(|c| {
+            if crowd {
+                c.max_connections = 2;
+            }
+        }),
+        initial: scen::http_state(&setup),
+    };
+    let (mut exec, create_err) = worker::run_worker(ws, peers, main, profile, prefix, 200);
     if let Some(e) = create_err {
         crate::common::machinery_error(&format!("worker creation failed: {e}"));
     }
     let mut violations: Vec<(String, String)> = vec![];
-    let mode = if case.hand_over { "hand-over" } else { "soft-stop" };
+    let mode = match (case.hand_over, case.crowd) {
+        (false, false) => "soft-stop",
+        (true, false) => "hand-over",
+        (false, true) => "soft-stop-at-max-connections",
+        (true, true) => "hand-over-at-max-connections",
+    };
     let phase = case.phase.clone();
     let mut flag = |k: String, d: String| violations.push((format!("C10|{mode}|{phase}|{k}"), d));
     if let Some(p) = &exec.subject_panic {
@@ -247,7 +276,11 @@ pub fn cases(_tier: Tier) -> Vec<Case> {
     let mut v = vec![];
     for hand_over in [false, true] {
         for p in PHASES {
-            v.push(Case { phase: p.into(), hand_over });
+            v.push(Case { phase: p.into(), hand_over, crowd: false });
+        }
+        // the client was connected before the crowd arrived
+        for p in ["connected-idle", "mid-upload", "awaiting-backend", "mid-download", "keep-alive-idle", "h2-streams-open"] {
+            v.push(Case { phase: p.into(), hand_over, crowd: true });
         }
     }
     v
@@ -273,7 +306,7 @@ pub fn run_item(tier: Tier, item: usize) -> ItemResult {
                 Err(status) => {
                     let mut r = super::c01::crashed_run(prefix, &status);
                     for v in r.violations.iter_mut() {
-                        v.0 = v.0.replace("C01|any", &format!("C10|{}|{}", if c2.hand_over { "hand-over" } else { "soft-stop" }, c2.phase));
+                        v.0 = v.0.replace("C01|any", &format!("C10|{}{}|{}", if c2.hand_over { "hand-over" } else { "soft-stop" }, if c2.crowd { "-at-max-connections" } else { "" }, c2.phase));
                     }
                     r
                 }
@@ -309,7 +342,7 @@ pub fn replay_case(ctx: &Ctx, case: &Value) -> Coverage {
 pub fn debug(args: &crate::common::Args) {
     let phase = args.extra.get("phase").cloned().unwrap_or_else(|| "mid-upload".into());
     let hand_over = args.extra.get("handover").is_some();
-    let c = Case { phase, hand_over };
+    let c = Case { phase, hand_over, crowd: args.extra.contains_key("crowd") };
     let choices: Vec<u32> = args.extra.get("choices").map(|s| s.split(',').filter_map(|x| x.parse().ok()).collect()).unwrap_or_default();
     println!("{c:?}");
     let r = worker::isolated(move || run_case(&c, choices, profile())).unwrap();
